@@ -516,7 +516,7 @@ pub fn run(tier: Tier, totals: &mut Totals) {
     totals.traces += scripts;
     totals.nontrivial += scripts;
     totals.extra.insert("script_sequences".into(), json!(scripts));
-    for n in with_thresholds_usize(tier.pick(vec![300usize, 3000], vec![300usize, 3000, 30000]), tier.pick(1024, 16384)) {
+    for n in with_thresholds_usize(tier.pick(vec![300usize, 3000, 12000], vec![300usize, 3000, 12000, 30000, 70000]), tier.pick(1024, 16384)) {
         totals.evals += 1;
         totals.transitions += 1;
         totals.traces += 1;
@@ -574,6 +574,41 @@ pub fn run(tier: Tier, totals: &mut Totals) {
                 );
             }
         }
+    }
+    // names that read like something the implementation might keep for itself (a counter, a table, a
+    // marker): as an alias and as a function they are names like any other, through unalias reached
+    // directly and through an alias of it
+    for name in [
+        "nesting", "depth", "level", "count", "counter", "stack", "state", "names", "aliases", "ALIAS_STATE", "alias_state", "handles", "scope_stack", "size", "len", "index", "id", "key", "value", "lock", "busy", "running", "current", "last",
+        "next", "prev", "top", "list", "cache", "self", "this", "0", "1", "true", "false", "none", "fn_nesting", "call_stack", "call_stack_depth", "instructions", "arguments", "script", "name", "command", "commands",
+    ] {
+        let text = format!(
+            "pre = is_command_defined {n}\nalias {n} set deep\nd1 = is_command_defined {n}\nout1 = {n}\nout2 = {n}\nrm1 = unalias {n}\nd2 = is_command_defined {n}\nrm2 = unalias {n}\nfn {n}\nreturn from_function\nend\nrm3 = unalias {n}\nalias drop unalias\nrm4 = drop {n}\nd3 = is_command_defined {n}\nout3 = {n}\nalias viaalias {n}\nout4 = viaalias\nrm5 = drop viaalias\nd4 = is_command_defined viaalias\nd5 = is_command_defined {n}\nlast = set reached",
+            n = name
+        );
+        crate::util::scale_case_totals(
+            totals,
+            &format!("name-from-the-dictionary {}", name),
+            &text,
+            &[
+                ("pre", Some("false".to_string())),
+                ("d1", Some("true".to_string())),
+                ("out1", Some("deep".to_string())),
+                ("out2", Some("deep".to_string())),
+                ("rm1", Some("true".to_string())),
+                ("d2", Some("false".to_string())),
+                ("rm2", Some("false".to_string())),
+                ("rm3", Some("false".to_string())),
+                ("rm4", Some("false".to_string())),
+                ("d3", Some("true".to_string())),
+                ("out3", Some("from_function".to_string())),
+                ("out4", Some("from_function".to_string())),
+                ("rm5", Some("true".to_string())),
+                ("d4", Some("false".to_string())),
+                ("d5", Some("true".to_string())),
+                ("last", Some("reached".to_string())),
+            ],
+        );
     }
     if totals.samples.len() < 8 {
         totals.samples.push(json!({"script_ops": seqs.last().map(|s| s.iter().map(|&k| format!("{:?}", ops[k])).collect::<Vec<_>>())}));
@@ -765,7 +800,7 @@ pub fn replay(case: &Value) -> Result<String, String> {
     Ok(format!("{:?} -> {:?}", seq, run_sequence(&seq)))
 }
 
-pub const RULE: &str = "Part A: explicit-state breadth-first search to a fixpoint from the empty registry over the Rust API: set(c) for every command with name in {a,b,c} and an alias set of size <= 2 from the pool, remove/get/exists/get_for_use for every name of {a,b,c,x,y}, get_all_command_names; every transition is compared with the model (name table + alias table consulted first; an accepted registration drops an alias equal to the new name; removal drops exactly the aliases that point to the removed command): result of the call, refused registrations and lookups leave both public maps identical, every lookup of the universe agrees, no alias points to a missing command. Part B: every sequence of 1..k script-level operations (alias / unalias / remove_command / is_command_defined / fn definition / call, over the names x, y, echo and std::Echo) run as one script on the full standard library; outputs of every step and the final name and alias tables of the whole registry are compared with the same model. evaluations = transitions + scripts. Scale case: a registry of 300/3000 (thorough 30000) commands with two aliases each: every name and alias resolves to its own command, refused registrations leave no trace, removing every second command (by name or alias) leaves exactly the others. While functions run: remove_command / unalias / alias of the running function, its caller, a function that is not running and an sdk command, issued from a function called by another one: the registry follows at once and both invocations finish. The long history keeps a model of both tables (compared after every removal up to 200), with a command registered under the name of an existing alias first; sizes at the thresholds. Spelling registry: every ordered pair of 14 spellings of one name (white space or line ends behind / in front, other case, a Cyrillic look-alike, separators) as a command name and as an alias: exists / get / get_for_use answer for the registered spelling only, a second registration is accepted iff the spelling is free, remove of another spelling removes nothing";
+pub const RULE: &str = "Part A: explicit-state breadth-first search to a fixpoint from the empty registry over the Rust API: set(c) for every command with name in {a,b,c} and an alias set of size <= 2 from the pool, remove/get/exists/get_for_use for every name of {a,b,c,x,y}, get_all_command_names; every transition is compared with the model (name table + alias table consulted first; an accepted registration drops an alias equal to the new name; removal drops exactly the aliases that point to the removed command): result of the call, refused registrations and lookups leave both public maps identical, every lookup of the universe agrees, no alias points to a missing command. Part B: every sequence of 1..k script-level operations (alias / unalias / remove_command / is_command_defined / fn definition / call, over the names x, y, echo and std::Echo) run as one script on the full standard library; outputs of every step and the final name and alias tables of the whole registry are compared with the same model. evaluations = transitions + scripts. Scale case: a registry of 300/3000 (thorough 30000) commands with two aliases each: every name and alias resolves to its own command, refused registrations leave no trace, removing every second command (by name or alias) leaves exactly the others. While functions run: remove_command / unalias / alias of the running function, its caller, a function that is not running and an sdk command, issued from a function called by another one: the registry follows at once and both invocations finish. The long history keeps a model of both tables (compared after every removal up to 200), with a command registered under the name of an existing alias first; sizes at the thresholds. Spelling registry: every ordered pair of 14 spellings of one name (white space or line ends behind / in front, other case, a Cyrillic look-alike, separators) as a command name and as an alias: exists / get / get_for_use answer for the registered spelling only, a second registration is accepted iff the spelling is free, remove of another spelling removes nothing Dictionary names: 45 names that read like something an implementation keeps for itself (nesting, depth, count, stack, state, ALIAS_STATE, handles, scope_stack, call_stack_depth, ...) as an alias (defined, used twice, removed, removed again) and as a function (unalias directly and through an alias of unalias leaves it; an alias of it runs it and is removed on its own).";
 pub const ASSUMPTIONS: &[&str] = &["unalias of a name that was once created with alias removes whatever command that name resolves to now (the implementation's bookkeeping is mirrored)", "a function defined twice in one script is refused by the function table, not the registry"];
 pub const EXHAUSTIVE: bool = true;
 pub const WALL_CAP_S: (u64, u64) = (55, 1500);
